@@ -406,7 +406,15 @@ var jobWatchdog = 6 * time.Minute
 
 // jobMaxExec bounds the executions of one job; the unexplored remainder is handed back to the coordinator as new jobs
 // (load balancing, and the watchdog stays a hang detector).
-var jobMaxExec = 20000
+var jobMaxExec = envInt("VERIF_JOB_MAX_EXEC", 2000)
+
+func envInt(name string, def int) int {
+	var n int
+	if _, err := fmt.Sscanf(os.Getenv(name), "%d", &n); err == nil && n > 0 {
+		return n
+	}
+	return def
+}
 
 type workerProc struct {
 	cmd *exec.Cmd
